@@ -80,7 +80,33 @@ def run(ctx, rep):
               r = rng.random()
               if k == 0 or r < 0.2:
                   st = G.random_stack(rng, size, D, ops_pool, term_prob=0.35, const_prob=rng.choice([0.2, 0.5]), int_prob=0.1)
-                  ag.command_array = np.array(st, dtype=int).reshape(-1, 3)
+                  how = rng.random()
+                  held = ag._command_array
+                  if k > 0 and how < 0.25 and held.shape == (size, 3):
+                      # the caller re-uses its work buffer: edits the array the equation already holds IN PLACE (after a read
+                      # refreshed the cache) and assigns the very same object again
+                      ag.get_complexity()
+                      ops.append("o")
+                      states.append(None)
+                      held.flags.writeable = True
+                      held[:] = np.array(st, dtype=int).reshape(-1, 3)
+                      ag.command_array = held
+                      rep.count("assign", "same object after in-place edit")
+                  elif k > 0 and how < 0.5 and held.shape == (size, 3):
+                      # view, read, edit the view, commit the view through the setter
+                      v = ag.mutable_command_array
+                      i0 = rng.randrange(size)
+                      ops.append("e %d %d %d %d" % (i0, *[int(t) for t in v[i0]]))      # obtaining the view notifies
+                      states.append(None)
+                      ag.get_complexity()
+                      ops.append("o")
+                      states.append(None)
+                      v[:] = np.array(st, dtype=int).reshape(-1, 3)
+                      ag.command_array = v
+                      rep.count("assign", "view, read, edit, commit")
+                  else:
+                      ag.command_array = np.array(st, dtype=int).reshape(-1, 3)
+                      rep.count("assign", "new array")
                   ops.append("c " + stack_str(st))
                   writes_after_obs += seen_obs
               elif r < 0.4:
